@@ -201,6 +201,8 @@ class WSStream:
         self.access_logged = False
         self.pongs: List[Union[WSProtoEvent, bytes]] = []
         self.sending_pongs = False
+        self.pongs_sent = 0
+        self.pongs_stalled_at = -1
         self.close_after_replies = False
         self.ping_task = context.single_task_class()
         self.sending_ping = False
@@ -374,9 +376,6 @@ class WSStream:
                 raise UnexpectedMessageError(self.state, message["type"])
 
     async def _handle_events(self) -> None:
-        # Pongs are only ever dropped if those for earlier data are yet
-        # to be sent, i.e. the client is not taking them.
-        behind = len(self.pongs) > 0
         for event in self.connection.events():
             if self.closed:
                 # Closed whilst handling an earlier event (e.g. a pong
@@ -417,8 +416,26 @@ class WSStream:
                 # for the client (HTTP/2 flow control) and that must not
                 # stop the reading of what the client sends meanwhile,
                 # e.g. the very credit that is being waited for.
-                self.pongs.append(event.response())
-                if behind and len(self.pongs) > MAX_QUEUED_PONGS:
+                # Serialised here and now though, what follows the ping in
+                # the data read (the client's close) can rule it out later.
+                try:
+                    self.pongs.append(self.connection.send(event.response()))
+                except LocalProtocolError:
+                    continue  # A close has been sent, nothing can follow it
+                # Pongs are only ever dropped if the client is not taking
+                # them: the task that sends them is waited for as long
+                # as it gets on (reading what is already buffered does
+                # not by itself yield to it).
+                if len(self.pongs) > MAX_QUEUED_PONGS and self.pongs_sent != self.pongs_stalled_at:
+                    stalled = 0
+                    while len(self.pongs) > MAX_QUEUED_PONGS and stalled < 16 and not self.closed:
+                        sent = self.pongs_sent
+                        await self.context.sleep(0)
+                        stalled = stalled + 1 if self.pongs_sent == sent else 0
+                    if stalled >= 16:
+                        # Not waited for again until it has got on
+                        self.pongs_stalled_at = self.pongs_sent
+                if len(self.pongs) > MAX_QUEUED_PONGS:
                     self.pongs.pop(0)  # Only the most recent pings need an answer
                 if not self.sending_pongs:
                     self.sending_pongs = True
@@ -524,6 +541,7 @@ class WSStream:
                 event = self.pongs.pop(0)
                 if isinstance(event, bytes):
                     await self.send(Data(stream_id=self.stream_id, data=event))
+                    self.pongs_sent += 1
                     continue
                 await self._send_wsproto_event(event)
                 if isinstance(event, CloseConnection):
